@@ -186,6 +186,13 @@ Definition e_name (e : srd_elem) : option string :=
   | None => None
   end.
 
+(** the dummy rows of build_periodic_table.py (Gen/Srd144.v): species (EE, EA, A, mass string) *)
+Definition dm_EE (r : string * string * Z * string) : string := match r with (ee, _, _, _) => ee end.
+Definition dm_EA (r : string * string * Z * string) : string := match r with (_, ea, _, _) => ea end.
+Definition dm_A (r : string * string * Z * string) : Z := match r with (_, _, a, _) => a end.
+Definition dm_mass (r : string * string * Z * string) : string := match r with (_, _, _, m) => m end.
+Definition dummy_labels : list string := map dm_EA srd_dummy_species.
+
 (** Standard 18-column layout written from the noble-gas boundaries 2,10,18,36,54,86,118. *)
 Definition nobles : list Z := [2; 10; 18; 36; 54; 86; 118].
 Definition ref_period (z : Z) : Z := 1 + Z.of_nat (List.length (filter (fun n => Z.ltb n z) nobles)).
